@@ -29,6 +29,12 @@ type HarnessSpec struct {
 	NoPrune   bool   `json:"no_prune"`
 	NoReplay  bool   `json:"no_replay"` // harness cannot run natively (uses engine-only vocabulary)
 	NoBatch   bool   `json:"no_batch"`
+	SymFrom   int    `json:"sym_from"` // symbolic-schedule window [sym_from, sym_to)
+	SymTo     int    `json:"sym_to"`
+	Policy    string `json:"policy"`   // baseline schedule outside the window
+	Window    int    `json:"window"`   // expand into a family of windows of this length ...
+	Stride    int    `json:"stride"`   // ... every stride steps over the baseline run
+	Policies  []string `json:"policies"`
 	Stubs     map[string]string `json:"stubs"` // repository function -> contract function in the overlay (assume-guarantee)
 }
 
@@ -102,6 +108,7 @@ func runHarness(l *loaded, spec HarnessSpec, trace bool, dumpDir string) *Harnes
 	for from, to := range spec.Stubs {
 		m.Intrinsics[from] = exec.Redirect(to)
 	}
+	m.SymFrom, m.SymTo, m.Policy = spec.SymFrom, spec.SymTo, spec.Policy
 	m.Deterministic = !spec.Symbolic
 	m.NoPrune = spec.NoPrune
 
@@ -112,7 +119,7 @@ func runHarness(l *loaded, spec HarnessSpec, trace bool, dumpDir string) *Harnes
 		res.Err = err.Error()
 		return res
 	}
-	defer ps.Close()
+	defer func() { ps.Close() }()
 	synced := 0
 	var nFeas int
 	var feasDur time.Duration
@@ -126,6 +133,14 @@ func runHarness(l *loaded, spec HarnessSpec, trace bool, dumpDir string) *Harnes
 		nFeas++
 		f0 := time.Now()
 		defer func() { feasDur += time.Since(f0) }()
+		if ps.Dead {
+			ps.Close()
+			np, err := newSolver("z3-new", 2000)
+			if err != nil {
+				return true
+			}
+			ps, pr, synced = np, sym.NewPrinter(m.C), 0
+		}
 		for ; synced < len(m.Events); synced++ {
 			e := m.Events[synced]
 			if e.Kind == exec.EvAssume {
@@ -139,6 +154,13 @@ func runHarness(l *loaded, spec HarnessSpec, trace bool, dumpDir string) *Harnes
 	}
 
 	t0 := time.Now()
+	m.Trace2 = os.Getenv("VCHECK_PROGRESS") == "2"
+	if os.Getenv("VCHECK_PROGRESS") != "" {
+		m.Progress = func(step, enumerated, live, alts, gors int) {
+			fmt.Fprintf(os.Stderr, "[%s] step %d: %d candidates (%d enumerated), %d alternatives in %d goroutines, %d terms, %d feasibility queries (%.1fs), t=%.1fs\n",
+				spec.Name, step, live, enumerated, alts, gors, m.C.NumNodes(), nFeas, feasDur.Seconds(), time.Since(t0).Seconds())
+		}
+	}
 	if err := m.RunInits(l.pkgs); err != nil {
 		res.Err = err.Error()
 		return res
@@ -155,7 +177,7 @@ func runHarness(l *loaded, spec HarnessSpec, trace bool, dumpDir string) *Harnes
 		res.Assumptions = append(res.Assumptions, k)
 	}
 	sort.Strings(res.Assumptions)
-	res.Notes = m.Notes
+	res.Notes = append(res.Notes, m.Notes...)
 	res.NInstr, res.NBlocks, res.NObjects, res.NTerms = m.NInstr, m.NBlocks, m.NObjects, m.C.NumNodes()
 	res.NTrivial = m.NTrivial
 	res.StepLog = m.StepLog
